@@ -197,12 +197,28 @@ def run(tier, seed):
         # depth-2 trees whose right operand is a leaf (left-deep chains a b op c op)
         sub = list(trees(1))
         ts += [(op, l, r) for op in TREE_OPS for l in sub if l[0] != "leaf" for r in sub if r[0] == "leaf"]
+    # deep but narrow: left-deep and right-deep chains of up to 4 [5] operators over 4 leaves (depth 4-5 trees, exhaustively)
+    cl = [Fraction(1, 2), Fraction(-3, 2), Fraction(5, 3), Fraction(2)]
+    maxops = 3 if tier == "quick" else 5
+    chains = []
+    for k in range(3, maxops + 1):
+        for ops_ in itertools.product(TREE_OPS, repeat=k):
+            for lv in itertools.product(cl, repeat=k + 1) if k <= 3 else itertools.product(cl[:3], repeat=k + 1):
+                left = ("leaf", lv[0])
+                for o, v in zip(ops_, lv[1:]):
+                    left = (o, left, ("leaf", v))
+                chains.append(left)
+                right = ("leaf", lv[-1])
+                for o, v in zip(reversed(ops_), reversed(lv[:-1])):
+                    right = (o, ("leaf", v), right)
+                chains.append(right)
+    ts = ts + chains
     explore.pmap(_tree_shard, explore.chunks(ts, 64), rep, seed)
     rep.section("sizes", small_pairs=len(pairs), large_pairs=len(fam), trees=len(ts))
     rep.rule = ("all ordered pairs over {p/q: |p|<=12, q<=6} (%d values) x 6 operators x 2 representations (Python int where "
                 "integral / sympy); a structured large family; all expression trees over + - * / with 7 leaves up to depth %d%s "
-                "run as Vyxal programs. distinct_nontrivial counts distinct operand pairs and distinct trees." % (
-                    len(vals), depth, " plus left-deep depth-2 chains" if tier == "quick" else ""))
+                "run as Vyxal programs; plus all left-deep and right-deep operator chains of 3..%d operators over 4 [3] leaves. distinct_nontrivial counts distinct operand pairs and distinct trees." % (
+                    len(vals), depth, " plus left-deep depth-2 chains" if tier == "quick" else "", maxops))
     import random
 
     rnd = random.Random(seed)
